@@ -689,6 +689,12 @@ func bsConsumed(b *bitstream, pos0 uint64, cur0 int, len0 uint64) bool {
 	return b.pos == pos0+len0 && vcStreamOf(b.in).cur == cur0+int(len0) && b.state == bsAfter(b) && bsCleared(b)
 }
 
+// The hour and minute fields and the error of the offset text at val[idx:] as computeOffset
+// reads them (computeOffset is opaque: the same text gives the same fields).
+func specOffsetHour(val string, idx int) int64   { h, _, _ := computeOffset(val, idx); return h }
+func specOffsetMinute(val string, idx int) int64 { _, m, _ := computeOffset(val, idx); return m }
+func specOffsetErr(val string, idx int) error    { _, _, e := computeOffset(val, idx); return e }
+
 // specPow10: 10^k for k <= 9.
 func specPow10(k uint8) int {
 	switch k {
